@@ -35,13 +35,18 @@ func vfWrapKind(t tabular.Table, k int) tabular.Table {
 // VerifC10_wrappers: the same logical table renders byte-identically whatever created it and whatever
 // wrappers are nested around it; package functions, wrapper methods and auto agree.
 func VerifC10_wrappers() {
-	a := vfString("a", 2, vfTXT)
+	a := vfString("a", 1+vfTier(), vfTXT)
 	b := "b"
 	if vfTier() == 1 {
 		b = vfString("b", 1, vfTXT)
 	}
 	var t tabular.Table
-	create := vfChoice("create", 9)
+	create := 0
+	if vfTier() == 1 {
+		create = vfChoice("create", 9)
+	} else {
+		create = []int{0, 1, 3, 4, 8}[vfChoice("create", 5)]
+	}
 	switch create {
 	case 0:
 		t = tabular.New()
@@ -81,7 +86,11 @@ func VerifC10_wrappers() {
 	}
 	w := t
 	for d := 0; d < depth; d++ {
-		w = vfWrapKind(w, vfChoice(vfName("wrap", d), 5))
+		if vfTier() == 1 {
+			w = vfWrapKind(w, vfChoice(vfName("wrap", d), 5))
+		} else {
+			w = vfWrapKind(w, []int{0, 2, 3}[vfChoice(vfName("wrap", d), 3)])
+		}
 		vfTag("wrapped")
 	}
 	if !fillFirst {
@@ -169,4 +178,98 @@ func VerifC10_wrappers() {
 	vfAssert(vfAnd(errWrap == nil, viaWrap == refOut), "wrapper-method-agrees")
 	vfAssert(vfAnd(errTo == nil, viaTo == refOut), "renderto-writes-what-render-returns")
 	vfAssert(vfAnd(errAuto == nil, viaAuto == refOut), "auto-agrees")
+
+	// a second format on the same table, then the first one again: still the reference bytes
+	second := (format + 1) % 5
+	if vfTier() == 1 {
+		second = (format + 1 + vfChoice("second", 3)) % 5
+	}
+	out2, err2 := vfRenderAs(w, second)
+	ref2, rerr2 := vfRenderAs(ref, second)
+	vfAssert((err2 == nil) == (rerr2 == nil), "second-format-same-error-status")
+	if rerr2 == nil {
+		vfAssert(out2 == ref2, "second-format-same-bytes")
+	}
+	again, errAgain := vfRenderAs(w, format)
+	vfAssert(vfAnd(errAgain == nil, again == refOut), "first-format-again-same-bytes")
+
+	// the content changes (a cell appended to an attached row); wrapper objects made before the change,
+	// package functions and auto still all agree with a freshly built reference
+	keep := vfKeep(w, format)
+	keepOut0, _ := keep.Render()
+	vfAssert(keepOut0 == refOut, "kept-wrapper-agrees-before-change")
+	for _, tb := range []tabular.Table{w, ref} {
+		rows := tb.AllRows()
+		rows[len(rows)-1].Add(tabular.NewCell("late"))
+	}
+	ref3, rerr3 := vfRenderAs(ref, format)
+	keepOut, keepErr := keep.Render() // before anything wraps the table afresh
+	out3, err3 := vfRenderAs(w, format)
+	vfAssert((err3 == nil) == (rerr3 == nil), "after-change-same-error-status")
+	if rerr3 == nil {
+		vfAssert(out3 == ref3, "after-change-same-bytes")
+		vfAssert(vfAnd(keepErr == nil, keepOut == ref3), "kept-wrapper-agrees-after-change")
+	}
+	// finally the renderer objects that were there from the start - the created table and the outermost
+	// wrapper - render in their own format, after the table has been through all the others
+	for _, obj := range []tabular.Table{t, w} {
+		rt, ok := obj.(RenderTable)
+		if !ok {
+			continue
+		}
+		nf := -1
+		switch rt.(type) {
+		case *csv.CSVTable:
+			nf = 0
+		case *json.JSONTable:
+			nf = 1
+		case *markdown.MarkdownTable:
+			nf = 2
+		case *texttable.TextTable:
+			if create != 8 {
+				nf = 3
+			}
+		case *html.HTMLTable:
+			nf = 4
+		}
+		if nf < 0 {
+			continue
+		}
+		for pass := 0; pass < 2; pass++ {
+			ownOut, ownErr := rt.Render()
+			refOwn, refOwnErr := vfRenderAs(ref, nf)
+			vfAssert((ownErr == nil) == (refOwnErr == nil), "own-format-same-error-status")
+			if refOwnErr == nil {
+				vfAssert(ownOut == refOwn, "own-format-same-bytes-after-other-renderers")
+			}
+		}
+	}
+}
+
+func vfRenderAs(t tabular.Table, f int) (string, error) {
+	switch f {
+	case 0:
+		return csv.Render(t)
+	case 1:
+		return json.Render(t)
+	case 2:
+		return markdown.Render(t)
+	case 3:
+		return texttable.Render(t)
+	}
+	return html.Wrap(t).Render()
+}
+
+func vfKeep(t tabular.Table, f int) RenderTable {
+	switch f {
+	case 0:
+		return csv.Wrap(t)
+	case 1:
+		return json.Wrap(t)
+	case 2:
+		return markdown.Wrap(t)
+	case 3:
+		return texttable.Wrap(t)
+	}
+	return html.Wrap(t)
 }
